@@ -33,7 +33,7 @@ RULE = (
     "process per FLOW_RECORD_IGNORE value (unset, '_generated', '_source,_generated', a data field, empty) running a script of "
     "explicit set_ignored_fields_for_comparison calls and (nested, failing) scopes incl. explicitly empty ones: a dictionary model "
     "of the configuration in force (environment default until the first explicit call, explicit = exactly what was given, restored "
-    "after a scope) decides every probe; 'nametwin' = descriptors with identical fields whose names differ only in '/' versus '_' (plus clones and same-name-other-fields descriptors) created before and after the compared records: different names => unequal, hash / reported descriptor name / observation of untouched records stable; 'scope2' = scopes ended through a suspended generator (close / exhaust / throw / drop), recursion, and an explicit set inside a scope; every scope and set call goes through one of the two public entry points flow.record.X / flow.record.base.X; " 
+    "after a scope) decides every probe; 'edges' = range-edge values of 20 types (datetime min / max and year 1 / 9999 within their offset of the edge, +-2**63 / 2**200 integers, nan / inf / -0.0 / denormals, empty versus None, 64 KiB texts, non-NFC text, byte escapes, all-zero / all-one addresses, /0 and /128 networks, empty paths / digests) as scalar, as T[] element and as _generated: rebuilt copies equal, every pair compared, sets and dicts built - nothing may raise; 'variants' = 34 pairs of representations of the same logical input (str / bytes values and group / type / field names, int / equal float / bool, naive / UTC / text / epoch timestamps, text / object addresses and paths, tuple / dict / list digests, hex case, list / tuple) must give the same observation, equal records, equal hashes; grouped cases also compare seven structural variants (a member twice, an extra member of an existing type, nested groups flattening to the same members, reversed members): equal exactly when the canonical observation is the same; thorough tier: every field varied under every single-field ignore set, up to 28 field pairs and 6 all-but-one sets, groups of up to 6 members, up to 16 modification rounds, recursion depth up to 9, dict nesting depth 4, ~1000 environment children; 'nametwin' = descriptors with identical fields whose names differ only in '/' versus '_' (plus clones and same-name-other-fields descriptors) created before and after the compared records: different names => unequal, hash / reported descriptor name / observation of untouched records stable; 'scope2' = scopes ended through a suspended generator (close / exhaust / throw / drop), recursion, and an explicit set inside a scope; every scope and set call goes through one of the two public entry points flow.record.X / flow.record.base.X; " 
     "'classcache' = equal descriptors re-created (directly / from a stream / as grouped members) "
     "after the lru_cache of generated record classes overflowed; 'coincident' = two different descriptors whose identifiers coincide by construction; 'ipfamily' = addresses of "
     "different family / scope with the same integer; 'scope' = the ignore configuration installed by "
@@ -60,7 +60,7 @@ ASSUMPTIONS = [
     "entry is the name '' which matches no field, duplicates collapse; unset or empty = nothing ignored); field names are case sensitive",
 ]
 SHARDS = {"quick": 8, "thorough": 16}
-BUDGET_S = {"quick": 150, "thorough": 900}
+BUDGET_S = {"quick": 150, "thorough": 1800}
 
 ANCHORS = [
     "flow.record.base:Record.__eq__",
@@ -110,6 +110,10 @@ KEY_STALE_HASH = "hash-stale-after-mutation"
 KEY_CLASS_IDENTITY = "equality-depends-on-record-class-identity"
 
 
+EDGE_TYPES = ("datetime", "varint", "filesize", "float", "string", "wstring", "bytes", "net.ipaddress", "net.ipnetwork", "path", "digest", "uint16", "uint32", "boolean", "uri",
+              "stringlist", "dictlist", "dynamic", "unix_file_mode", "command")
+
+
 class _Boom(Exception):
     """injected inside an ignore scope"""
 
@@ -135,37 +139,46 @@ def teardown(ctx):
 
 def generate(ctx):
     idx = 0
-    for rep in range(ctx.scale(24, 300)):
+    for rep in range(ctx.scale(24, 3000)):
         if ctx.mine(idx):
             yield {"k": "nametwin", "s": subseed("c12", ctx.seed, "nametwin", rep)}
         idx += 1
     for variant in ("generator", "recursive", "set-inside"):
-        for rep in range(ctx.scale(16, 160)):
+        for rep in range(ctx.scale(16, 1500)):
             if ctx.mine(idx):
-                yield {"k": "scope2", "variant": variant, "s": subseed("c12", ctx.seed, "scope2", variant, rep)}
+                yield {"k": "scope2", "variant": variant, "s": subseed("c12", ctx.seed, "scope2", variant, rep), "depth": ctx.scale(4, 9)}
             idx += 1
-    for rep in range(ctx.scale(1, 2)):
+    for rep in range(ctx.scale(1, 4)):
         if ctx.mine(idx + 3):  # one shard pays the ~1-2 s of overflowing the record-class cache
             yield {"k": "classcache", "s": subseed("c12", ctx.seed, "classcache", rep)}
         idx += 1
-    for rep in range(ctx.scale(1, 6)):
+    for rep in range(ctx.scale(1, 8)):
         for e in range(len(ENV_IGNORE)):
             if ctx.mine(idx):
                 yield {"k": "envignore", "value": ENV_IGNORE[e], "s": subseed("c12", ctx.seed, "envignore", e, rep)}
             idx += 1
-    for rep in range(ctx.scale(8, 60)):
+    for rep in range(ctx.scale(8, 420)):
         if ctx.mine(idx):
             sd = subseed("c12", ctx.seed, "envignore-random", rep)
             yield {"k": "envignore", "value": random_env_value(random.Random(sd)), "s": sd}
         idx += 1
     for shape in MUT_SHAPES:
-        for i in range(ctx.scale(30, 600)):
+        for i in range(ctx.scale(30, 3600)):
             if ctx.mine(idx):
-                yield {"k": "mutate", "shape": shape, "s": subseed("c12", ctx.seed, "mutate", shape, i)}
+                yield {"k": "mutate", "shape": shape, "s": subseed("c12", ctx.seed, "mutate", shape, i), "rounds": ctx.scale(4, 16)}
             idx += 1
-    for i in range(ctx.scale(24, 400)):
+    for i in range(ctx.scale(24, 4000)):
         if ctx.mine(idx):
-            yield {"k": "dictorder", "s": subseed("c12", ctx.seed, "dictorder", i)}
+            yield {"k": "dictorder", "s": subseed("c12", ctx.seed, "dictorder", i), "depth": ctx.scale(2, 4)}
+        idx += 1
+    for t in sorted(EDGE_TYPES):
+        for form in ("scalar", "list", "generated"):
+            if ctx.mine(idx):
+                yield {"k": "edges", "t": t, "form": form, "s": subseed("c12", ctx.seed, "edges", t, form)}
+            idx += 1
+    for rep in range(ctx.scale(2, 40)):
+        if ctx.mine(idx):
+            yield {"k": "variants", "s": subseed("c12", ctx.seed, "variants", rep)}
         idx += 1
     for kind in ("coincident", "ipfamily", "borderline"):
         for i in range(ctx.scale(2, 6)):
@@ -179,17 +192,23 @@ def generate(ctx):
                     if ctx.mine(idx):
                         yield {"k": "scope", "container": cont, "raise": raise_inside, "nested": nested, "s": subseed("c12", ctx.seed, "scope", cont, raise_inside, nested, rep)}
                     idx += 1
-    for rep in range(ctx.scale(2, 40)):
+    for rep in range(ctx.scale(2, 200)):
         for t, vc in gen.all_cells():
             if vc == "extreme" and rep > 0:
                 continue
             if ctx.mine(idx):
-                yield {"k": "type", "t": t, "vc": vc, "s": subseed("c12", ctx.seed, "type", t, vc, rep)}
+                c = {"k": "type", "t": t, "vc": vc, "s": subseed("c12", ctx.seed, "type", t, vc, rep)}
+                if not ctx.quick:
+                    c["full"] = True  # every field varied; every single-field ignore set, every pair of data fields
+                yield c
             idx += 1
     for kind in ("nested", "grouped"):  # kind-major, so that every shard receives cases of both kinds
-        for rep in range(ctx.scale(40, 1200)):
+        for rep in range(ctx.scale(40, 7000)):
             if ctx.mine(idx):
-                yield {"k": kind, "s": subseed("c12", ctx.seed, kind, rep)}
+                c = {"k": kind, "s": subseed("c12", ctx.seed, kind, rep)}
+                if not ctx.quick:
+                    c["full"] = True
+                yield c
             idx += 1
 
 
@@ -217,7 +236,7 @@ def build_record(seed, focus_type=None, vc=None, thorough=False, kind="type"):
     rng = random.Random(seed)
     b = gen.Builder(rng, thorough=False, max_depth=2)
     if kind == "grouped":
-        g = b.grouped(n=rng.randint(1, 3))
+        g = b.grouped(n=rng.randint(1, 6 if thorough else 3))
         pin_generated(g)
         return g, None, None
     if kind == "nested":
@@ -664,7 +683,7 @@ def run_type(ctx, case):
     # single-field variations: one per data field and per metadata field
     variations = []
     vary = list(fields) + [(meta_type(m), m) for m in META]
-    if len(vary) > 6:
+    if len(vary) > 6 and not case.get("full"):
         keep = [f for f in vary if f[1] == focus]
         rest = [f for f in vary if f[1] != focus]
         rng.shuffle(rest)
@@ -693,6 +712,12 @@ def run_type(ctx, case):
         nested_var = make_nested_variation(ctx, case, a, focus, rng)
     info0 = {"case": case, "descriptor": [desc.name, fields], "a": describe(a)}
     configs = configs_for(ctx, rng, all_names, [focus] + [rng.choice(all_names)])
+    if case.get("full"):
+        # thorough: every single-field ignore set and every pair of data fields (exhaustive over ignore sets of size <= 1, data pairs of size 2)
+        data = [n for n in all_names if n not in META]
+        configs += [("single", {n}) for n in all_names]
+        configs += [("pair", {x, y}) for i, x in enumerate(data) for y in data[i + 1:]][:28]
+        configs += [("all-but-one", set(all_names) - {n}) for n in all_names[:6]]
 
     def body(label, ignored):
         base_info = dict(info0, ignored=sorted(ignored), config=label)
@@ -761,8 +786,9 @@ def run_grouped(ctx, case):
     from flow.record import GroupedRecord
 
     rng = random.Random(case["s"] ^ 0xA5A5)
-    a, _, _ = build_record(case["s"], kind="grouped")
-    b, _, _ = build_record(case["s"], kind="grouped")
+    full = bool(case.get("full"))
+    a, _, _ = build_record(case["s"], kind="grouped", thorough=full)
+    b, _, _ = build_record(case["s"], kind="grouped", thorough=full)
     oa = observe.obs(a)
     if oa != observe.obs(b):
         ctx.event("generator_selfcheck_failed")
@@ -784,7 +810,7 @@ def run_grouped(ctx, case):
         if not cands:
             continue
         ftype, fname = rng.choice(cands)
-        v, _, _ = build_record(case["s"], kind="grouped")
+        v, _, _ = build_record(case["s"], kind="grouped", thorough=full)
         try:
             apply_variation(v.records[mi], fname, ftype, rng)
         except Exception:  # noqa: BLE001
@@ -799,6 +825,24 @@ def run_grouped(ctx, case):
     renamed = GroupedRecord(a.name + "_o", list(b.records))
     swapped = GroupedRecord(a.name, list(reversed(b.records))) if len(b.records) > 1 and observe.obs(b.records[0]) != observe.obs(b.records[-1]) else None
     fewer = GroupedRecord(a.name, list(b.records[:-1])) if len(b.records) > 1 else None
+    # structural variants: member count / duplicated member / an extra member that adds no new flat field / a nested group
+    structural = []
+    try:
+        last = b.records[-1]
+        rebuilt_last = build_record(case["s"], kind="grouped", thorough=full)[0].records[-1]
+        structural.append(("last member twice (same object)", GroupedRecord(a.name, list(b.records) + [last])))
+        structural.append(("last member twice (rebuilt copy)", GroupedRecord(a.name, list(b.records) + [rebuilt_last])))
+        structural.append(("first member twice", GroupedRecord(a.name, [b.records[0]] + list(b.records))))
+        extra = type(last)(*[getattr(last, k) for k in last.__slots__])
+        extra._source = "another record of a member's type"
+        structural.append(("extra member of an existing member's type", GroupedRecord(a.name, list(b.records) + [extra])))
+        structural.append(("nested group (flattened to the same members)", GroupedRecord(a.name, [GroupedRecord(a.name + "_inner", list(b.records[:1]))] + list(b.records[1:]))))
+        if len(b.records) > 1:
+            structural.append(("members reversed", GroupedRecord(a.name, list(reversed(b.records)))))
+            structural.append(("nested group of all but the first", GroupedRecord(a.name, [b.records[0], GroupedRecord(a.name + "_in2", list(b.records[1:]))])))
+    except Exception as e:  # noqa: BLE001
+        ctx.violation(None, "a structural variant of a grouped record could not be built", detail={"case": case, "exception": repr(e)[:300]})
+    structural = [(lab, x, observe.obs(x) == oa) for lab, x in structural]
     info0 = {"case": case, "a": describe(a)}
     focus = [variations[0][1]] if variations else []
     configs = configs_for(ctx, rng, all_names, focus + ["_generated"])
@@ -822,6 +866,14 @@ def run_grouped(ctx, case):
             compare(ctx, a, swapped, None, dict(base_info, pair="members swapped", b=describe(swapped)))
         if fewer is not None:
             compare(ctx, a, fewer, "unequal", dict(base_info, pair="one member fewer", b=describe(fewer), because="a member record is missing"))
+        if label in ("none", "_generated"):
+            # the canonical observation decides: the same members in the same order => equal; another member count / order => unequal
+            for lab, x, same_obs in structural:
+                exp = (None if nan_blocks_equal else "equal") if same_obs else "unequal"
+                compare(ctx, a, x, exp, dict(base_info, pair="structural variant: " + lab, b=describe(x), key="grouped-structure-ignored-by-equality",
+                                             because="the groups differ in their members (%s)" % lab))
+                ctx.event("grouped_structural_pairs")
+                ctx.cell("pair", "grouped-structure", lab)
         for m in a.records:
             compare(ctx, a, m, "unequal", dict(base_info, pair="grouped vs its plain member", b=describe(m), because="one is a grouped record of another descriptor"))
         for x in NONRECORDS[:6]:
@@ -891,7 +943,7 @@ def _reorder(value, rng):
     return value
 
 
-def _mixed_dict(rng, depth=0):
+def _mixed_dict(rng, depth=0, maxdepth=2):
     keys = rng.sample(MIXED_KEYS, rng.randint(2, 5))
     if len({type(k) for k in keys}) < 2:
         keys[0] = 1 if not isinstance(keys[0], int) else "x"
@@ -901,10 +953,10 @@ def _mixed_dict(rng, depth=0):
     d = {}
     for k in keys:
         r = rng.random()
-        if depth < 2 and r < 0.2:
-            d[k] = _mixed_dict(rng, depth + 1)
-        elif depth < 2 and r < 0.4:
-            d[k] = [_mixed_dict(rng, depth + 1) for _ in range(rng.randint(1, 2))] + [rng.choice([1, "s", None])]
+        if depth < maxdepth and r < 0.2:
+            d[k] = _mixed_dict(rng, depth + 1, maxdepth)
+        elif depth < maxdepth and r < 0.4:
+            d[k] = [_mixed_dict(rng, depth + 1, maxdepth) for _ in range(rng.randint(1, 2))] + [rng.choice([1, "s", None])]
         else:
             d[k] = rng.choice([1, "s", None, 2.5, True, b"v", "\udcff"])
     return d
@@ -919,8 +971,9 @@ def run_dictorder(ctx, case):
 
     rng = random.Random(case["s"])
     d = RecordDescriptor("c12/dictorder", [("dictlist", "f"), ("string", "s"), ("dictlist", "g")])
-    fa = [_mixed_dict(rng) for _ in range(rng.randint(1, 3))]
-    ga = [_mixed_dict(rng)] if rng.random() < 0.5 else None
+    md = case.get("depth", 2)
+    fa = [_mixed_dict(rng, 0, md) for _ in range(rng.randint(1, 3))]
+    ga = [_mixed_dict(rng, 0, md)] if rng.random() < 0.5 else None
     fb, gb = _reorder(fa, rng), _reorder(ga, rng) if ga is not None else None
     if fa != fb or repr(fa) == repr(fb):
         ctx.event("dictorder_generator_selfcheck_failed")
@@ -1086,7 +1139,7 @@ def run_mutate(ctx, case):
     st = _mut_state(rng)
     x = mut_build(shape, st)
     info0 = {"case": case}
-    for rnd in range(rng.randint(1, 4)):
+    for rnd in range(rng.randint(1, case.get("rounds", 4))):
         y_old = mut_build(shape, st)
         # the hash (and everything a cache could hold on to) is taken BEFORE the modification
         compare(ctx, x, y_old, "equal", dict(info0, pair="before modification %d" % rnd, a=describe(x), b=describe(y_old), config="none"))
@@ -1300,6 +1353,169 @@ def run_classcache(ctx, case):
     ctx.sample({"case": case, "descriptors_created": n, "new_class": evicted}, kind="classcache")
 
 
+# ---- range-edge values: ==, !=, hash, set / dict must never raise and obey the contract ---------------------------------
+def edge_values(t):
+    """values at the edge of what the type can hold (built lazily: some need the library)"""
+    tz = lambda h, m=0: _dt.timezone(_dt.timedelta(hours=h, minutes=m))  # noqa: E731
+    if t == "datetime":
+        return [_dt.datetime.min, _dt.datetime.max, _dt.datetime(1, 1, 1, 0, 30, tzinfo=tz(2)), _dt.datetime(1, 1, 1, 0, 0, tzinfo=tz(14)), _dt.datetime(1, 1, 1, 23, 59, 59, tzinfo=tz(23, 59)),
+                _dt.datetime(9999, 12, 31, 23, 30, tzinfo=tz(-5)), _dt.datetime(9999, 12, 31, 23, 59, 59, 999999, tzinfo=tz(-12)), _dt.datetime(9999, 12, 31, 0, 0, 1, tzinfo=tz(-23, -59)),
+                "0001-01-01T00:30:00+02:00", "9999-12-31T23:30:00-05:00", _dt.datetime(1, 1, 1, tzinfo=_dt.timezone.utc), _dt.datetime(9999, 12, 31, 23, 59, 59, 999999, tzinfo=_dt.timezone.utc),
+                0, _dt.datetime(1970, 1, 1, tzinfo=tz(0)), None]
+    if t in ("varint", "filesize", "unix_file_mode"):
+        return [0, -1, 2**63 - 1, 2**63, -(2**63), -(2**63) - 1, 2**64, 2**200, -(2**200), 10**40, None]
+    if t == "float":
+        return [float("nan"), gen._f("7ff80000deadbeef"), float("inf"), float("-inf"), 0.0, -0.0, 5e-324, -5e-324, 2.2250738585072014e-308, 1.7976931348623157e308, None]
+    if t in ("string", "wstring"):
+        return ["", None, "x" * 65536, "\u00e9" * 65535, "\udc80\udcff", "e\u0301", "\u00e9", "\x00", "\U0010ffff", "a\x00b"]
+    if t == "uri":
+        return ["", None, "http://x/" + "a" * 65536, "x\udcffy", "http://e\u0301.example/"]
+    if t == "bytes":
+        return [b"", None, b"\x00" * 65536, b"\xff", bytes(range(256))]
+    if t == "net.ipaddress":
+        return ["0.0.0.0", "::", "255.255.255.255", "ffff:ffff:ffff:ffff:ffff:ffff:ffff:ffff", 0, 2**32 - 1, 2**32, 2**128 - 1, None]
+    if t == "net.ipnetwork":
+        return ["0.0.0.0/0", "::/0", "255.255.255.255/32", "::/128", "ffff:ffff:ffff:ffff:ffff:ffff:ffff:ffff/128", "0.0.0.0/32", None]
+    if t == "path":
+        from flow.record.fieldtypes import path as fpath
+
+        return ["", ".", "/", fpath.from_windows(""), fpath.from_windows("c:"), fpath.from_posix("/" + "d/" * 2000), None]
+    if t == "command":
+        return ["x", "c:\\x.exe", "x " + "a " * 3000, None]
+    if t == "digest":
+        return [None, (None, None, None), {}, ("00" * 16, "00" * 20, "00" * 32), ("ff" * 16, None, None), (None, None, "FF" * 32)]
+    if t == "uint16":
+        return [0, 65535, None]
+    if t == "uint32":
+        return [0, 2**32 - 1, None]
+    if t == "boolean":
+        return [False, True, 0, 1, None]
+    if t == "stringlist":
+        return [None, [], [""], ["x" * 65536], ["a"] * 65536]
+    if t == "dictlist":
+        return [None, [], [{}], [{"k": 2**200}], [{"k": float("nan")}]]
+    if t == "dynamic":
+        return [None, "", b"", 0, False, 2**200, [], _dt.datetime(1, 1, 1, 0, 30, tzinfo=tz(2))]
+    raise KeyError(t)
+
+
+def run_edges(ctx, case):
+    """Every edge value of a type in a scalar field, as the only element of a T[] field, and (datetimes) as _generated: two
+    independent builds must be equal with equal hashes (NaN aside), and ==, !=, hash, set and dict operations between records
+    holding different edge values must never raise, be symmetric and hash-consistent."""
+    from flow.record import RecordDescriptor
+
+    t, form = case["t"], case["form"]
+    if form == "list" and t in ("stringlist", "dictlist", "dynamic"):
+        return
+    if form == "generated" and t != "datetime":
+        return
+    ftype = t + "[]" if form == "list" else t
+    fields = [("string", "f")] if form == "generated" else [(ftype, "f")]
+
+    def build(v):
+        d = RecordDescriptor("c12/edge", fields + [("string", "s")])
+        if form == "generated":
+            return d(f="x", s="s", _generated=v if v is not None else STAMP)
+        return d(f=([v] if v is not None else []) if form == "list" else v, s="s", _generated=STAMP)
+
+    recs = []
+    for v in edge_values(t):
+        try:
+            a, b = build(v), build(v)
+        except Exception as e:  # noqa: BLE001 - whether an edge value is accepted is C05's subject
+            ctx.event("edge_value_not_accepted")
+            ctx.note("edge_value_not_accepted:%s/%s" % (ftype, form), repr(e)[:100])
+            continue
+        oa, ob = observe.obs(a), observe.obs(b)
+        info = {"case": case, "value": describe(v), "a": describe(a), "config": "none"}
+        ctx.cell("edges", ftype if form != "generated" else "_generated", "value")
+        reflexive(ctx, a, info)
+        if oa == ob:
+            compare(ctx, a, b, None if has_nan(oa) else "equal", dict(info, pair="edge value vs rebuilt copy", b=describe(b)))
+            ctx.event("edge_rebuilt_compared")
+        recs.append(a)
+    for i in range(len(recs)):
+        for j in range(i + 1, len(recs)):
+            compare(ctx, recs[i], recs[j], None, {"case": case, "pair": "two edge values", "a": describe(recs[i]), "b": describe(recs[j]), "config": "none"})
+            ctx.event("edge_pairs_compared")
+    try:
+        distinct = len(set(recs))
+        lookup = {r: i for i, r in enumerate(recs)}
+        ctx.event("edge_set_built")
+        if not 1 <= distinct <= len(recs) or len(lookup) != distinct:
+            ctx.violation(None, "a set / dict of records holding edge values is inconsistent", detail={"case": case, "records": len(recs), "set": distinct, "dict": len(lookup)})
+    except Exception as e:  # noqa: BLE001
+        ctx.violation(None, "building a set / dict of records holding edge values raised %s" % type(e).__name__, detail={"case": case, "exception": repr(e)[:300]})
+    Config(ctx, {"s"}, "scope", "set").run(lambda: [reflexive(ctx, r, {"case": case, "config": "s", "a": describe(r)}) for r in recs])
+    ctx.nontrivial("edges", t, form)
+
+
+# ---- representation variants of the same logical input ----------------------------------------------------------------
+def variant_pairs():
+    import ipaddress
+    import pathlib
+
+    from flow.record.fieldtypes import path as fpath
+
+    utc = _dt.timezone.utc
+    bsub = type("BytesSub", (bytes,), {})
+    return [
+        ("string", "abc", b"abc"), ("string", "R\u00e9my", "R\u00e9my".encode()), ("wstring", "", b""), ("varint", 5, 5.0), ("varint", 1, True), ("varint", 5, "5"), ("float", 1, 1.0),
+        ("float", "1.5", 1.5), ("boolean", 1, True), ("boolean", 0, False), ("datetime", _dt.datetime(2020, 1, 2, 3, 4, 5), _dt.datetime(2020, 1, 2, 3, 4, 5, tzinfo=utc)),
+        ("datetime", "2020-01-02T03:04:05", _dt.datetime(2020, 1, 2, 3, 4, 5)), ("datetime", 0, _dt.datetime(1970, 1, 1)), ("datetime", "2020-01-02T03:04:05Z", "2020-01-02T03:04:05+00:00"),
+        ("datetime", b"2020-01-02T03:04:05Z", "2020-01-02T03:04:05Z"), ("path", "/a/b", pathlib.PurePosixPath("/a/b")), ("path", "/a/b", fpath.from_posix("/a/b")),
+        ("path", "c:\\x", pathlib.PureWindowsPath("c:\\x")) if False else ("path", "a//b", "a/b"), ("net.ipaddress", "1.2.3.4", ipaddress.IPv4Address("1.2.3.4")),
+        ("net.ipaddress", "1.2.3.4", 16909060), ("net.ipaddress", "1.2.3.4", b"\x01\x02\x03\x04"), ("net.ipaddress", "::1", ipaddress.ip_address("::1")),
+        ("net.ipaddress", "0:0:0:0:0:0:0:1", "::1"), ("net.ipnetwork", "10.0.0.0/8", ipaddress.ip_network("10.0.0.0/8")), ("net.ipnetwork", "10.0.0.0/255.0.0.0", "10.0.0.0/8"),
+        ("digest", ("aa" * 16, None, None), {"md5": "aa" * 16}), ("digest", ("aa" * 16, None, None), ["aa" * 16, None, None]), ("digest", ("AA" * 16, None, None), ("aa" * 16, None, None)),
+        ("uri", "http://x/", b"http://x/"), ("bytes", b"ab", bsub(b"ab")), ("string[]", ["a", "b"], ("a", "b")), ("string[]", [b"a"], ["a"]), ("varint[]", [1, 2], (1.0, True + 1)),
+        ("datetime[]", [_dt.datetime(2020, 1, 2)], ["2020-01-02T00:00:00Z"]),
+    ]
+
+
+def run_variants(ctx, case):
+    """Two representations of the SAME logical input (str / bytes names and values, int / equal float, naive / UTC timestamp, text /
+    object forms of paths and addresses, tuple / dict / list digests, list / tuple lists ...): the records must have the same
+    observation, be equal, hash equal and collapse in sets / dicts."""
+    from flow.record import GroupedRecord, RecordDescriptor
+
+    rng = random.Random(case["s"])
+
+    def rec(t, v, name="c12/variant", fname="f", tname=None, source="src"):
+        d = RecordDescriptor(name, [(tname or t, fname), ("string", "s")])
+        return d.recordType(v, "x", _generated=STAMP, _source=source)
+
+    def judge(label, a, b):
+        ctx.event("variant_pairs")
+        ctx.cell("variants", label)
+        info = {"case": case, "pair": "representation variants: " + label, "a": describe(a), "b": describe(b), "config": "none", "key": "representation-variants-differ"}
+        oa, ob = observe.obs(a), observe.obs(b)
+        if oa != ob:
+            ctx.violation("representation-variants-differ", "two representations of the same input give records with different observations", detail=dict(info, diff=observe.first_diff(oa, ob)))
+        compare(ctx, a, b, None if has_nan(oa) else "equal", info)
+
+    pairs = variant_pairs()
+    rng.shuffle(pairs)
+    for t, x, y in pairs[: (len(pairs) if case["s"] % 2 else 18)]:
+        try:
+            judge("%s %s/%s" % (t, type(x).__name__, type(y).__name__), rec(t, x), rec(t, y))
+        except Exception as e:  # noqa: BLE001
+            ctx.violation(None, "a representation of a valid input was rejected", detail={"case": case, "type": t, "inputs": [describe(x), describe(y)], "exception": repr(e)[:200]})
+    tag = gen.rand_ident(rng)
+    m = rec("string", "v")
+    other = RecordDescriptor("c12/variant_o", [("varint", "n")])(n=1, _generated=STAMP)
+    judge("group name str/bytes", GroupedRecord("c12grp/" + tag, [m, other]), GroupedRecord(("c12grp/" + tag).encode(), [rec("string", "v"), other]))
+    judge("type name str/bytes", rec("string", "v", name="c12/nm_" + tag), rec("string", "v", name=("c12/nm_" + tag).encode()))
+    judge("field name str/bytes", rec("string", "v"), rec("string", "v", fname=b"f"))
+    judge("field type str/bytes", rec("string", "v"), rec("string", "v", tname=b"string"))
+    judge("_source str/bytes", rec("string", "v", source="s\u00e9"), rec("string", "v", source="s\u00e9".encode()))
+    d1 = RecordDescriptor("c12/variant_l", [("string", "f")])
+    d2 = RecordDescriptor("c12/variant_l", (("string", "f"),))
+    judge("field list list/tuple", d1(f="x", _generated=STAMP), d2(f="x", _generated=STAMP))
+    ctx.nontrivial("variants", case["s"])
+
+
 def run_coincident(ctx, case):
     """Two different descriptors (same name, different field lists) built so that name + sum(fieldname + fieldtype) is the same
     text: their records must still be unequal.  Known mechanism: the identifier coincides."""
@@ -1487,7 +1703,7 @@ def run_scope2(ctx, case):
             ctx.cell("scope2", "generator", how)
             expect_config(outer, "after a generator suspended inside its scope was ended by " + how)
         elif variant == "recursive":
-            depth = rng.randint(2, 4)
+            depth = rng.randint(2, case.get("depth", 4))
             plan = [(rng.choice([{"n"}, {"s"}, set(), {"n", "s"}]), rng.random() < 0.5) for _ in range(depth)]
 
             def level(i, outside):
@@ -1617,6 +1833,10 @@ def execute(ctx, case):
         run_coincident(ctx, case)
     elif k == "dictorder":
         run_dictorder(ctx, case)
+    elif k == "edges":
+        run_edges(ctx, case)
+    elif k == "variants":
+        run_variants(ctx, case)
     elif k == "mutate":
         run_mutate(ctx, case)
     elif k == "scope2":
@@ -1660,6 +1880,11 @@ def finish(ctx):
     ctx.require(ev.get("scope2_cases", 0) > 0, "generator-suspended / recursive scopes were never exercised")
     ctx.require(ev.get("entry:flow.record.ignore_fields_for_comparison", 0) > 0 and ev.get("entry:flow.record.base.ignore_fields_for_comparison", 0) > 0,
                 "the scope was not driven through both public entry points (flow.record and flow.record.base)")
+    if any(c.startswith("edges/") for c in ctx.cells):
+        ctx.require(ev.get("edge_pairs_compared", 0) > 0 or ev.get("edge_rebuilt_compared", 0) > 0, "the edge-value family compared nothing")
+    if any(c.startswith("variants/") for c in ctx.cells):
+        ctx.require(ev.get("variant_pairs", 0) > 0, "the representation-variant family compared nothing")
+    ctx.require(ev.get("grouped_structural_pairs", 0) > 0, "no structural variant of a grouped record was compared")
     ctx.require(ev.get("mutate_pairs_checked", 0) > 0, "hash / == coherence across mutation was never checked")
     ctx.require(ev.get("mutate_model_selfcheck_failed", 0) == 0, "the mutation model disagreed with the observed record (%d cases)" % ev.get("mutate_model_selfcheck_failed", 0))
     if ctx.state.get("classcache_ran"):
